@@ -13,6 +13,7 @@ Example lexer_pin : Generated.lexer_rules = lexer_rules_pin := eq_refl.
 Example lexer_elide_pin_ok : Generated.lexer_elide = lexer_elide_pin := eq_refl.
 Example lexer_unquote_pin_ok : Generated.lexer_unquote = lexer_unquote_pin := eq_refl.
 Example lookahead_pin : Generated.parser_lookahead = 1%N := eq_refl.
+Example lexer_map_pin_ok : Generated.lexer_map = lexer_map_pin := eq_refl.
 (* the rule list of the model has the names/order of the table *)
 Example rules_order_pin :
   List.map (fun kr => kind_code (fst kr)) rules = List.map N.of_nat (seq 0 (List.length lexer_rules_pin)) := eq_refl.
@@ -46,7 +47,7 @@ Definition grammar_tags_pin : list (string * string) :=
    ("Term.Bytes", "| @@");
    ("Term.String", "| @String");
    ("Term.Date", "| @DateTime");
-   ("Term.Integer", "| @Int");
+   ("Term.Integer", "| @(""-"":Operator? Int)");
    ("Term.Bool", "| @Bool");
    ("Term.Set", "| ""["" @@ ("","" @@)* ""]""");
    ("Expression.Left", "@@");
@@ -288,23 +289,70 @@ Proof.
   pose proof (size_nat_bound n). rewrite Nat2N.inj_succ, N.pow_succ_r'. lia.
 Qed.
 
-Lemma parse_int_dec z :
-  (0 <= z < 9223372036854775808)%Z -> parse_int (dec_of_Z z) = Some z.
+(* the Int token mapper followed by the base-0 conversion is the base-10 conversion of the
+   digits as written, leading zeros included (for every text, digits or not) *)
+Lemma num_of_zero base s : 0 < base -> num_of base (48 :: s) 0 = num_of base s 0.
 Proof.
-  intros Hz. unfold dec_of_Z. destruct (z <? 0)%Z eqn:Hneg; [lia|].
-  set (n := Z.to_N z). assert (Hn : n < 9223372036854775808) by lia.
-  assert (Hzn : Z.of_N n = z) by lia.
-  unfold parse_int, dec_of_N.
-  destruct (N.eq_dec n 0) as [H0|H0].
-  - rewrite H0. cbn. rewrite <- Hzn, H0. reflexivity.
+  intros Hb. cbn [num_of]. change (is_digit 48) with true. change (48 - 48) with 0.
+  apply N.ltb_lt in Hb. rewrite Hb. reflexivity.
+Qed.
+Lemma int_magnitude_nonzero c l : c <> 48 -> int_magnitude (c :: l) = num_of 10 (c :: l) 0.
+Proof.
+  intros Hc. unfold int_magnitude.
+  destruct c as [|q]; [reflexivity|]. do 6 (destruct q as [q|q|]; try reflexivity). congruence.
+Qed.
+Theorem int_magnitude_decimal s : int_magnitude (strip_zeros s) = num_of 10 s 0.
+Proof.
+  induction s as [|c s IH]; [reflexivity|].
+  unfold strip_zeros in *. cbn [drop_while]. destruct (N.eqb_spec c 48) as [->|Hc].
+  - rewrite num_of_zero by lia. exact IH.
+  - apply int_magnitude_nonzero. exact Hc.
+Qed.
+Theorem parse_int_decimal s :
+  parse_int s = match num_of 10 s 0 with
+                | Some n => if n <? 9223372036854775808 then Some (Z.of_N n) else None
+                | None => None
+                end.
+Proof. unfold parse_int. rewrite int_magnitude_decimal. reflexivity. Qed.
+Theorem parse_neg_int_decimal s :
+  parse_neg_int s = match num_of 10 s 0 with
+                    | Some n => if n <=? 9223372036854775808 then Some (- Z.of_N n)%Z else None
+                    | None => None
+                    end.
+Proof. unfold parse_neg_int. rewrite int_magnitude_decimal. reflexivity. Qed.
+
+(* the magnitude and the sign: the Integer alternative is @("-":Operator? Int) *)
+Definition int_mag (z : Z) : N := if (z <? 0)%Z then Z.to_N (- z) else Z.to_N z.
+
+Lemma dec_of_Z_mag z :
+  dec_of_Z z = (if (z <? 0)%Z then [45] else []) ++ dec_of_N (int_mag z).
+Proof. unfold dec_of_Z, int_mag. destruct (z <? 0)%Z; reflexivity. Qed.
+
+(* the canonical digits of [n] denote [n] *)
+Lemma magnitude_dec n : num_of 10 (dec_of_N n) 0 = Some n.
+Proof. unfold dec_of_N. rewrite (dec_digits_value (S (N.size_nat n)) n [] (dec_of_N_fuel n)). reflexivity. Qed.
+
+Lemma parse_int_decN n :
+  n < 9223372036854775808 -> parse_int (dec_of_N n) = Some (Z.of_N n).
+Proof.
+  intros Hn. rewrite parse_int_decimal, magnitude_dec.
+  apply N.ltb_lt in Hn. rewrite Hn. reflexivity.
+Qed.
+
+Lemma parse_neg_int_decN n :
+  n <= 9223372036854775808 -> parse_neg_int (dec_of_N n) = Some (- Z.of_N n)%Z.
+Proof.
+  intros Hn. rewrite parse_neg_int_decimal, magnitude_dec.
+  apply N.leb_le in Hn. rewrite Hn. reflexivity.
+Qed.
+
+Lemma dec_of_N_head n : exists c l, dec_of_N n = c :: l /\ is_digit c = true.
+Proof.
+  unfold dec_of_N. destruct (N.eq_dec n 0) as [H0|H0].
+  - rewrite H0. cbn. eauto.
   - destruct (dec_digits_head (S (N.size_nat n)) n [] ltac:(lia) (dec_of_N_fuel n)) as (c & l & Hd & Hc1 & Hc2).
-    pose proof (dec_digits_value (S (N.size_nat n)) n [] (dec_of_N_fuel n)) as Hv.
-    rewrite Hd in *.
-    assert (Hsel : match c :: l with [] => None | 48 :: s' => num_of 8 s' 0 | _ :: _ => num_of 10 (c :: l) 0 end
-                   = num_of 10 (c :: l) 0).
-    { destruct c as [|p]; [lia|]. do 6 (destruct p as [p|p|]; try reflexivity); lia. }
-    rewrite Hsel, Hv. cbn [num_of].
-    apply N.ltb_lt in Hn. rewrite Hn. rewrite Hzn. reflexivity.
+    exists c, l. split; [exact Hd|]. unfold is_digit.
+    apply andb_true_iff; split; apply N.leb_le; lia.
 Qed.
 
 Lemma dec_of_Z_head z :
@@ -328,6 +376,8 @@ Definition t_semi := Tok KPunct L_semi.
 Definition t_lbrack := Tok KPunct L_lbrack.
 Definition t_rbrack := Tok KPunct L_rbrack.
 Definition t_bang := Tok KPunct L_bang.
+Definition t_minus := Tok KOperator L_minus.
+Definition int_tok (z : Z) : token := Tok KInt (dec_of_N (int_mag z)).
 Definition t_dot := Tok KDot [46].
 Definition t_arrow := Tok KArrow L_arrow.
 Definition t_or := Tok KIdent L_or.
@@ -346,7 +396,7 @@ Fixpoint up_term (t : gterm) (k : list token) : list token :=
   | GBytes h => Tok KHex (lit_hex ++ h) :: k
   | GStr s => Tok KString s :: k
   | GDate s => Tok KDateTime s :: k
-  | GInt z => Tok KInt (dec_of_Z z) :: k
+  | GInt z => if (z <? 0)%Z then t_minus :: int_tok z :: k else int_tok z :: k
   | GBool b => Tok KBool (if b then L_true else L_false) :: k
   | GSet x xs => t_lbrack :: up_term x (up_commas xs (t_rbrack :: k))
   end
@@ -362,7 +412,7 @@ Fixpoint wf_term (t : gterm) : bool :=
   | GParam n => forallb (fun c => negb (is_brace c)) n
   | GStr s => negb (has_prefix s lit_hex)       (* "hex:.." string literals are read as bytes *)
   | GDate s => negb (has_prefix s lit_hex)
-  | GInt z => ((0 <=? z) && (z <? 9223372036854775808))%Z
+  | GInt z => ((-9223372036854775808 <=? z) && (z <? 9223372036854775808))%Z   (* any int64 *)
   | GSet x xs => wf_term x && wf_terms xs
   | _ => true
   end
@@ -446,9 +496,25 @@ Proof.
   - (* GInt *) intros z Hwf f k Hf. destruct f as [|f]; [cbn in Hf; lia|].
     cbn [wf_term] in Hwf. apply andb_true_iff in Hwf as [H1 H2].
     apply Z.leb_le in H1. apply Z.ltb_lt in H2.
-    destruct (dec_of_Z_head z H1) as (c & l & Hd & Hc).
-    cbn [up_term parse_term tk tx]. rewrite Hd, (digit_not_h c l Hc), <- Hd.
-    rewrite parse_int_dec by lia. reflexivity.
+    cbn [up_term]. destruct (z <? 0)%Z eqn:Hneg.
+    + (* "-" then the digits of the magnitude *)
+      apply Z.ltb_lt in Hneg.
+      change (parse_term (S f) (t_minus :: int_tok z :: k))
+        with (match parse_neg_int (dec_of_N (int_mag z)) with
+              | Some z' => POk (GInt z') k
+              | None => PErr k
+              end).
+      assert (Hm : int_mag z = Z.to_N (- z)).
+      { unfold int_mag. destruct (z <? 0)%Z eqn:E; [reflexivity|apply Z.ltb_ge in E; lia]. }
+      rewrite parse_neg_int_decN by (rewrite Hm; lia).
+      rewrite Hm, Z2N.id by lia. rewrite Z.opp_involutive. reflexivity.
+    + apply Z.ltb_ge in Hneg.
+      assert (Hm : int_mag z = Z.to_N z).
+      { unfold int_mag. destruct (z <? 0)%Z eqn:E; [apply Z.ltb_lt in E; lia|reflexivity]. }
+      destruct (dec_of_N_head (int_mag z)) as (c & l & Hd & Hc).
+      unfold int_tok. cbn [parse_term tk tx]. rewrite Hd, (digit_not_h c l Hc), <- Hd.
+      rewrite parse_int_decN by (rewrite Hm; lia).
+      rewrite Hm, Z2N.id by lia. reflexivity.
   - (* GBool *) intros b _ f k Hf. destruct f as [|f]; [cbn in Hf; lia|]. destruct b; reflexivity.
   - (* GSet *) intros x IHx xs IHxs Hwf f k Hf. destruct f as [|f]; [cbn in Hf; lia|].
     cbn [wf_term] in Hwf. apply andb_true_iff in Hwf as [Hw1 Hw2]. cbn [need_term] in Hf.
@@ -485,7 +551,20 @@ Definition need_pred (p : Predicate) : nat :=
 Lemma gapp_nil a : gapp a GNil = a.
 Proof. induction a as [|x a IH]; [reflexivity|]. cbn. rewrite IH. reflexivity. Qed.
 
-Lemma parse_term_rparen f k : parse_term (S f) (t_rparen :: k) = PNone.
+Lemma shorter_eq_len {A} (a b : list A) : shorter_eq a b = true -> (List.length a <= List.length b)%nat.
+Proof.
+  revert b; induction a as [|x a IH]; intros b H; [cbn; lia|].
+  destruct b as [|y b]; [discriminate|]. cbn in *. apply IH in H. lia.
+Qed.
+Lemma deep_self u : deep u u = false.
+Proof.
+  destruct u as [|x [|y s2]]; try reflexivity. cbn [deep].
+  destruct (shorter_eq (x :: y :: s2) s2) eqn:E; [|reflexivity].
+  apply shorter_eq_len in E. cbn in E. lia.
+Qed.
+
+(* no alternative of Term starts with ")": the error of the Integer alternative, at the term's start *)
+Lemma parse_term_rparen f k : parse_term (S f) (t_rparen :: k) = PErr (t_rparen :: k).
 Proof. reflexivity. Qed.
 
 Lemma pred_ids_unparse ids f k :
@@ -494,13 +573,15 @@ Lemma pred_ids_unparse ids f k :
   pred_ids f (up_ids ids (t_rparen :: k)) = POk ids (t_rparen :: k).
 Proof.
   intros Hwf Hf. destruct ids as [|x xs].
-  - destruct f as [|[|f]]; try lia. reflexivity.
+  - destruct f as [|[|f]]; try lia. cbn [up_ids pred_ids]. rewrite parse_term_rparen.
+    cbn [grp]. rewrite deep_self. reflexivity.
   - destruct f as [|[|[|f]]]; try lia.
     cbn [wf_terms] in Hwf. apply andb_true_iff in Hwf as [Hw1 Hw2].
     cbn [up_ids pred_ids].
     rewrite (proj1 parse_unparse_term_all x Hw1) by lia.
     rewrite (proj2 parse_unparse_term_all xs Hw2) by (try lia; reflexivity).
-    cbn [pmap grp]. rewrite parse_term_rparen. cbn [grp pmap]. rewrite gapp_nil. reflexivity.
+    cbn [pmap grp]. rewrite parse_term_rparen. cbn [grp pmap]. rewrite deep_self.
+    cbn [pmap]. rewrite gapp_nil. reflexivity.
 Qed.
 
 Theorem parse_unparse_predicate : forall p f k,
@@ -777,7 +858,8 @@ Lemma neg_tok_kind t : kind_eqb (tk t) KPunct = false -> neg_tok t = false.
 Proof. intros H. unfold neg_tok. rewrite H. apply andb_false_r. Qed.
 Lemma up_term_head t k : exists o rest, up_term t k = o :: rest /\ neg_tok o = false.
 Proof.
-  destruct t; cbn [up_term]; eexists; eexists; (split; [reflexivity|]);
+  destruct t as [n|n|h|s|s|z|b|x xs]; cbn [up_term]; try destruct (z <? 0)%Z;
+    eexists; eexists; (split; [reflexivity|]);
     first [apply neg_tok_kind; reflexivity | reflexivity].
 Qed.
 Lemma up_et_head l k : exists o rest, up_et l k = o :: rest /\ neg_tok o = false.
@@ -832,23 +914,15 @@ Lemma parse_exprterm_S f ts :
   end.
 Proof. reflexivity. Qed.
 
-Lemma shorter_eq_len {A} (a b : list A) : shorter_eq a b = true -> (List.length a <= List.length b)%nat.
-Proof.
-  revert b; induction a as [|x a IH]; intros b H; [cbn; lia|].
-  destruct b as [|y b]; [discriminate|]. cbn in *. apply IH in H. lia.
-Qed.
-Lemma deep_self u : deep u u = false.
-Proof.
-  destruct u as [|x [|y s2]]; try reflexivity. cbn [deep].
-  destruct (shorter_eq (x :: y :: s2) s2) eqn:E; [|reflexivity].
-  apply shorter_eq_len in E. cbn in E. lia.
-Qed.
-
 (* ")" cannot start an expression: the error is reported where it stands *)
 Lemma parse_expression_rparen f k :
   (9 <= f)%nat -> parse_expression f (t_rparen :: k) = PErr (t_rparen :: k).
 Proof.
-  intros Hf. do 9 (destruct f as [|f]; [lia|]). reflexivity.
+  intros Hf. do 9 (destruct f as [|f]; [lia|]).
+  rewrite parse_expression_S, parse_expr1_S, parse_expr2_S, parse_expr3_S, parse_expr4_S, parse_expr5_S.
+  change (neg_tok t_rparen) with false. cbv iota.
+  rewrite parse_expr6_S, parse_exprterm_S, parse_term_rparen. cbv beta zeta iota. rewrite deep_self.
+  reflexivity.
 Qed.
 
 Lemma paren_tail_some {A} f (mk : OptExpression -> A) errpos e k :
@@ -998,8 +1072,9 @@ Proof.
   - (* ETParen *) intros a IHa Hwf f k Hf. destruct f as [|f]; [cbn in Hf; lia|].
     cbn [wf_et] in Hwf. cbn [need_et] in Hf. cbn [up_et].
     rewrite parse_exprterm_S. destruct f as [|f]; [lia|].
-    change (parse_term (S f) (t_lparen :: up_oe a (t_rparen :: k))) with (@PNone gterm).
-    cbv zeta. change (is_lit t_lparen L_lparen) with true. cbv iota.
+    change (parse_term (S f) (t_lparen :: up_oe a (t_rparen :: k)))
+      with (@PErr gterm (t_lparen :: up_oe a (t_rparen :: k))).
+    cbv zeta. cbv iota. rewrite deep_self. change (is_lit t_lparen L_lparen) with true. cbv iota.
     apply (IHa Hwf). lia.
 Qed.
 
@@ -1030,7 +1105,8 @@ Proof.
   cbn [up_expression up_e1 up_e2 up_e3 up_e4 up_e5 up_e6].
   destruct neg; [eexists; eexists; split; reflexivity|].
   destruct et as [t|a]; cbn [up_et]; [|eexists; eexists; split; reflexivity].
-  destruct t; cbn [up_term]; eexists; eexists; split; reflexivity.
+  destruct t as [n|n|h|s|s|z|b|x xs]; cbn [up_term]; try destruct (z <? 0)%Z;
+    eexists; eexists; split; reflexivity.
 Qed.
 
 Lemma parse_predicate_not_ident f t ts :
@@ -1454,7 +1530,9 @@ Proof. intros H a s. destruct r as [a0 s0| |p|]; cbn; try discriminate. exfalso.
 Lemma double_bang_e6 f r : not_ok (parse_expr6 f (t_bang :: r)).
 Proof.
   intros a s. destruct f as [|[|f]]; try discriminate. rewrite parse_expr6_S, parse_exprterm_S.
-  destruct f as [|f]; discriminate.
+  destruct f as [|f]; [discriminate|].
+  change (parse_term (S f) (t_bang :: r)) with (@PErr gterm (t_bang :: r)).
+  cbv beta zeta iota. rewrite deep_self. discriminate.
 Qed.
 
 Lemma double_bang_e5 f r : not_ok (parse_expr5 f (t_bang :: t_bang :: r)).
@@ -1515,6 +1593,168 @@ Example bang_string_wf :
              (MkExpr6 (ETTerm (GStr L_bang)) O7Nil)) O5Nil) O4Nil) O3None) O2Nil) O1Nil in
   wf_expression e = true /\ unparse_expr e = [Tok KString L_bang] /\
   parse_expr (need_expression e) (unparse_expr e) = POk e [].
+Proof. vm_compute. repeat split. Qed.
+
+(* the Integer alternative of Term is @("-":Operator? Int): negative literals, the whole
+   int64 range.  Every line below was measured on the Go parser with that tag. *)
+Definition fact1 (n : string) (ts : list term) : res pred := Ok {| p_name := bs n; p_terms := ts |}.
+Definition query1 (body : list pred) (ops : expr) : res check :=
+  Ok [{| r_head := query_head; r_body := body; r_exprs := [ops] |}].
+Definition x_a : pred := {| p_name := bs "x"; p_terms := [TA (AVar (bs "a"))] |}.
+Definition v_a : op := OVal (TA (AVar (bs "a"))).
+Definition i_ (z : Z) : op := OVal (TA (AInt z)).
+
+Example neg_int_facts :
+  parse_fact (bs "p(-1)") [] = fact1 "p" [TA (AInt (-1))] /\
+  parse_fact (bs "p(-9223372036854775808)") [] = fact1 "p" [TA (AInt (-9223372036854775808))] /\
+  parse_fact (bs "p(9223372036854775807)") [] = fact1 "p" [TA (AInt 9223372036854775807)] /\
+  (* out of range: strconv.ParseInt fails when the capture is applied *)
+  parse_fact (bs "p(9223372036854775808)") [] = Err EParse /\
+  parse_fact (bs "p(-9223372036854775809)") [] = Err EParse /\
+  (* only "-" is a sign *)
+  parse_fact (bs "p(+1)") [] = Err EParse /\
+  (* the layout between the sign and the digits is elided like any other *)
+  parse_fact (bs "p(- 1)") [] = fact1 "p" [TA (AInt (-1))] /\
+  parse_fact (bs "p([1, -2])") [] = fact1 "p" [TSet [AInt 1; AInt (-2)]] /\
+  (* base 10 whatever the leading zeros (the Int token mapper strips them) *)
+  parse_fact (bs "p(-017)") [] = fact1 "p" [TA (AInt (-17))] /\
+  parse_fact (bs "p(-0)") [] = fact1 "p" [TA (AInt 0)] /\
+  parse_fact (bs "p(-08)") [] = fact1 "p" [TA (AInt (-8))] /\
+  (* a sign that no Int token follows: the Integer alternative fails, and so does the term *)
+  parse_fact (bs "p(-)") [] = Err EParse /\
+  parse_fact (bs "p(--1)") [] = Err EParse /\
+  parse_fact (bs "p(-true)") [] = Err EParse /\
+  parse_fact (bs "p(-""a"")") [] = Err EParse /\
+  parse_fact (bs "p(-[1])") [] = Err EParse /\
+  (* the empty term list still parses (the term's error is within the lookahead of the group) *)
+  parse_fact (bs "p()") [] = fact1 "p" [] /\
+  (* (Term ("," Term)* )* : a sign also starts a new term without a comma, as a digit does *)
+  parse_fact (bs "p(1 -2)") [] = fact1 "p" [TA (AInt 1); TA (AInt (-2))] /\
+  parse_fact (bs "p(1 2)") [] = fact1 "p" [TA (AInt 1); TA (AInt 2)] /\
+  parse_rule (bs "p(-1) <- q(-2)") [] =
+    Ok {| r_head := {| p_name := bs "p"; p_terms := [TA (AInt (-1))] |};
+          r_body := [{| p_name := bs "q"; p_terms := [TA (AInt (-2))] |}]; r_exprs := [] |}.
+Proof. vm_compute. repeat split. Qed.
+
+Example neg_int_expressions :
+  parse_check (bs "check if x($a), $a == -1") [] = query1 [x_a] [v_a; i_ (-1); OBin BEqual] /\
+  parse_check (bs "check if x($a), $a > -1") [] = query1 [x_a] [v_a; i_ (-1); OBin BGreaterThan] /\
+  (* binary minus binds as before: the operator is consumed by OpExpr4 before a Term is tried *)
+  parse_check (bs "check if x($a), $a - -1 == 0") [] =
+    query1 [x_a] [v_a; i_ (-1); OBin BSub; i_ 0; OBin BEqual] /\
+  parse_check (bs "check if 1 - 2 == -1") [] = query1 [] [i_ 1; i_ 2; OBin BSub; i_ (-1); OBin BEqual] /\
+  parse_check (bs "check if 1 -2 == -1") [] = query1 [] [i_ 1; i_ 2; OBin BSub; i_ (-1); OBin BEqual] /\
+  parse_check (bs "check if -1 * -2 == 2") [] =
+    query1 [] [i_ (-1); i_ (-2); OBin BMul; i_ 2; OBin BEqual] /\
+  parse_check (bs "check if -1 == $a") [] = query1 [] [i_ (-1); v_a; OBin BEqual] /\
+  (* the sign belongs to the Term: "!" and the methods apply to the negative literal *)
+  parse_check (bs "check if !-1") [] = query1 [] [i_ (-1); OUn UNegate] /\
+  parse_check (bs "check if -1.length()") [] = query1 [] [i_ (-1); OUn ULength] /\
+  parse_check (bs "check if (-9223372036854775808)") [] = query1 [] [i_ (-9223372036854775808); OUn UParens] /\
+  parse_check (bs "check if [-1].length() == 1") [] =
+    query1 [] [OVal (TSet [AInt (-1)]); OUn ULength; i_ 1; OBin BEqual] /\
+  (* it is not a unary minus on expressions *)
+  parse_check (bs "check if - (1)") [] = Err EParse /\
+  parse_check (bs "check if -") [] = Err EParse /\
+  parse_check (bs "check if 1 - ") [] = Err EParse /\
+  parse_check (bs "check if -9223372036854775809 == 1") [] = Err EParse /\
+  parse_check (bs "check if 1 - -9223372036854775809") [] = Err EParse /\
+  (* "<" immediately followed by "-" is the Arrow token, as before *)
+  lex (bs "$a<-1") = Ok [Tok KVariable (bs "$a"); t_arrow; Tok KInt (bs "1")] /\
+  parse_check (bs "check if $a <-1") [] = Err EParse /\
+  parse_check (bs "check if $a < -1") [] = query1 [] [v_a; i_ (-1); OBin BLessThan] /\
+  parse_rule (bs "p($a) <- q($a), $a <-1") [] = Err EParse /\
+  parse_rule (bs "p($a) <- q($a), $a < -1") [] =
+    Ok {| r_head := {| p_name := bs "p"; p_terms := [TA (AVar (bs "a"))] |};
+          r_body := [{| p_name := bs "q"; p_terms := [TA (AVar (bs "a"))] |}];
+          r_exprs := [[v_a; i_ (-1); OBin BLessThan]] |}.
+Proof. vm_compute. repeat split. Qed.
+
+(* "integer is any base-10 int64": participle.Map on the Int token type strips the leading
+   zeros before the base-0 conversion.  Every line was measured on the Go parser with it. *)
+Example decimal_int_examples :
+  parse_fact (bs "p(010)") [] = fact1 "p" [TA (AInt 10)] /\
+  parse_fact (bs "p(08)") [] = fact1 "p" [TA (AInt 8)] /\
+  parse_fact (bs "p(0)") [] = fact1 "p" [TA (AInt 0)] /\
+  parse_fact (bs "p(000)") [] = fact1 "p" [TA (AInt 0)] /\
+  parse_fact (bs "p(-017)") [] = fact1 "p" [TA (AInt (-17))] /\
+  parse_fact (bs "p(-08)") [] = fact1 "p" [TA (AInt (-8))] /\
+  parse_fact (bs "p(09223372036854775807)") [] = fact1 "p" [TA (AInt 9223372036854775807)] /\
+  parse_fact (bs "p(-009223372036854775808)") [] = fact1 "p" [TA (AInt (-9223372036854775808))] /\
+  (* the range checks stay, leading zeros or not *)
+  parse_fact (bs "p(09223372036854775808)") [] = Err EParse /\
+  parse_fact (bs "p(-009223372036854775809)") [] = Err EParse /\
+  (* no other base, no digit separators: the Int rule is digits only *)
+  parse_fact (bs "p(0x10)") [] = Err EParse /\
+  parse_fact (bs "p(1_000)") [] = Err EParse /\
+  lex (bs "0x10") = Ok [Tok KInt (bs "0"); Tok KIdent (bs "x10")] /\
+  (* other token types are not mapped: dates and variables keep their zeros *)
+  parse_fact (bs "p(2023-01-02T03:04:05Z)") [] = fact1 "p" [TA (ADate 1672628645)] /\
+  parse_check (bs "check if x($01), $01 == 010") [] =
+    query1 [{| p_name := bs "x"; p_terms := [TA (AVar (bs "01"))] |}]
+           [OVal (TA (AVar (bs "01"))); i_ 10; OBin BEqual] /\
+  (* the mapper and the conversion on their own *)
+  strip_zeros (bs "010") = bs "10" /\ strip_zeros (bs "000") = bs "0" /\ strip_zeros (bs "0") = bs "0" /\
+  strip_zeros (bs "7") = bs "7" /\ strip_zeros [] = bs "0" /\
+  int_magnitude (bs "010") = Some 8 /\ parse_int (bs "010") = Some 10%Z /\ parse_neg_int (bs "010") = Some (-10)%Z.
+Proof. vm_compute. repeat split. Qed.
+
+(* the mapper acts before literal matching, but no literal of the grammar can match the value of
+   an Int token, mapped or not: a text that starts with a digit is none of them *)
+Lemma digit_head_no_literal c l :
+  is_digit c = true ->
+  forallb (fun lit => negb (bytes_eqb (c :: l) lit))
+    [L_lparen; L_rparen; L_comma; L_semi; L_lbrack; L_rbrack; L_bang; L_minus; L_arrow; L_or; L_oror;
+     L_andand; L_check_if; L_allow_if; L_deny_if; L_true; L_false] = true /\
+  cmp_of_text (c :: l) = None /\ add_of_text (c :: l) = None /\ mul_of_text (c :: l) = None /\
+  method_of_text (c :: l) = None /\ has_prefix (c :: l) lit_hex = false.
+Proof.
+  intros Hc. unfold is_digit in Hc. apply andb_true_iff in Hc as [Hc1 Hc2]. apply N.leb_le in Hc1, Hc2.
+  assert (Hne : forall x y, (x < 48 \/ 57 < x) -> bytes_eqb (c :: l) (x :: y) = false).
+  { intros x y Hx. cbn [bytes_eqb]. destruct (N.eqb_spec c x) as [->|_]; [lia|reflexivity]. }
+  repeat split.
+  - cbn [forallb]. unfold L_lparen, L_rparen, L_comma, L_semi, L_lbrack, L_rbrack, L_bang, L_minus, L_arrow,
+      L_or, L_oror, L_andand, L_check_if, L_allow_if, L_deny_if, L_true, L_false.
+    rewrite !Hne by lia. reflexivity.
+  - unfold cmp_of_text, cmp_text. rewrite !Hne by lia. reflexivity.
+  - unfold add_of_text, add_text. rewrite !Hne by lia. reflexivity.
+  - unfold mul_of_text, mul_text. rewrite !Hne by lia. reflexivity.
+  - unfold method_of_text, method_text, M_matches, M_starts_with, M_ends_with, M_contains, M_union,
+      M_intersection, M_length. rewrite !Hne by lia. reflexivity.
+  - cbn [has_prefix lit_hex]. destruct (N.eqb_spec c 104) as [->|_]; [lia|reflexivity].
+Qed.
+Lemma strip_zeros_head s :
+  forallb is_digit s = true -> exists c l, strip_zeros s = c :: l /\ is_digit c = true.
+Proof.
+  induction s as [|a s IH]; intros H; [exists 48, []; split; reflexivity|].
+  cbn [forallb] in H. apply andb_true_iff in H as [Ha Hs].
+  unfold strip_zeros in *. cbn [drop_while]. destruct (N.eqb_spec a 48) as [->|Hne].
+  - exact (IH Hs).
+  - exists a, s. split; [reflexivity|exact Ha].
+Qed.
+
+(* a Term that matches no alternative is an error at its own start, never "no match":
+   the head of the Integer alternative is an optional group *)
+Example term_never_nomatch :
+  parse_term 3 [] = PErr [] /\
+  parse_term 3 [t_rparen] = PErr [t_rparen] /\
+  parse_term 3 [t_minus; t_rparen] = PErr [t_minus; t_rparen] /\
+  parse_term 3 [t_minus; Tok KInt (bs "7"); t_rparen] = POk (GInt (-7)) [t_rparen] /\
+  (* out of range with a sign: the error is after both tokens, beyond the lookahead *)
+  parse_term 3 [t_minus; Tok KInt (bs "9223372036854775809"); t_rparen] = PErr [t_rparen] /\
+  deep [t_minus; Tok KInt (bs "9223372036854775809"); t_rparen] [t_rparen] = true /\
+  (* only the Operator token "-" is the sign *)
+  parse_term 3 [Tok KPunct L_minus; Tok KInt (bs "7")] = PErr [Tok KPunct L_minus; Tok KInt (bs "7")] /\
+  parse_term 3 [Tok KString L_minus; Tok KInt (bs "7")] = POk (GStr L_minus) [Tok KInt (bs "7")].
+Proof. vm_compute. repeat split. Qed.
+
+(* the side conditions of the token-level round trip hold for every int64 *)
+Example neg_int_wf :
+  wf_term (GInt (-9223372036854775808)) = true /\ wf_term (GInt 9223372036854775807) = true /\
+  wf_term (GInt (-9223372036854775809)) = false /\ wf_term (GInt 9223372036854775808) = false /\
+  up_term (GInt (-42)) [] = [t_minus; Tok KInt (bs "42")] /\
+  up_term (GInt 42) [] = [Tok KInt (bs "42")] /\
+  parse_term 1 (up_term (GInt (-9223372036854775808)) []) = POk (GInt (-9223372036854775808)) [].
 Proof. vm_compute. repeat split. Qed.
 
 (* ---------- conversion errors ---------- *)
@@ -2469,6 +2709,8 @@ Lemma term_size_all :
               (need_terms xs <= 16 * len (up_commas xs []) + 1)%nat).
 Proof.
   apply gterm_mutind; try (intros; split; [intros k; reflexivity|cbn; lia]).
+  - (* GInt: one or two tokens *) intros z. cbn [up_term need_term].
+    destruct (z <? 0)%Z; (split; [intros k; reflexivity|cbn; lia]).
   - intros x [IHx1 IHx2] xs [IHxs1 IHxs2]. split.
     + intros k. cbn [up_term len]. rewrite IHx1, IHxs1, (IHx1 (up_commas _ _)), (IHxs1 [_]). cbn [len]. lia.
     + cbn [up_term need_term len]. rewrite IHx1, IHxs1. cbn [len]. lia.
@@ -2877,6 +3119,44 @@ Example C14_parse_unparse_nonvacuous :
   List.length (au_body a) = 4%nat.
 Proof. vm_compute. repeat split. Qed.
 
+(* non-vacuity with negative literals in every position, and the "<" "-" adjacency: the
+   layout hypothesis [lexable] rejects a "<" immediately followed by the sign (the lexer
+   would read the Arrow token), and accepts it with a separator *)
+Definition ex_neg_text : string :=
+  "p(-1, [2, -3], -9223372036854775808) <- q($a, -5), $a - -1 == 0, $a < -2 || !-3 == $a && [-1].contains(-1) ; check if -4 * -2 <= $a + -6 ; allow if -1 == -1 ;".
+Example C14_parse_unparse_negative_nonvacuous :
+  let a := ex_tree ex_neg_text in
+  wfb_authorizer a = true /\
+  lexable (spaced (up_authorizer a)) = true /\
+  lex (bs ex_neg_text) = Ok (up_authorizer a) /\
+  List.length (up_authorizer a) = 72%nat /\
+  List.length (au_body a) = 3%nat /\
+  is_ok (parse_authorizer (flat (spaced (up_authorizer a))) []) = true /\
+  parse_authorizer (flat (spaced (up_authorizer a))) [] = parse_authorizer (bs ex_neg_text) [].
+Proof. vm_compute. repeat split. Qed.
+
+Example lt_minus_adjacency :
+  let va := Tok KVariable (bs "$a") in
+  let one := Tok KInt (bs "1") in
+  up_expression (MkExpression (MkExpr1 (MkExpr2
+      (MkExpr3 (MkExpr4 (MkExpr5 false (MkExpr6 (ETTerm (GVar (bs "a"))) O7Nil)) O5Nil) O4Nil)
+      (O3Some CLt (MkExpr3 (MkExpr4 (MkExpr5 false (MkExpr6 (ETTerm (GInt (-1))) O7Nil)) O5Nil) O4Nil)))
+      O2Nil) O1Nil) [] = [va; t_cmp CLt; t_minus; one] /\
+  (* no separator between "<" and "-": not a lexable layout, and indeed it lexes differently *)
+  lexable [(va, [32]); (t_cmp CLt, []); (t_minus, []); (one, [])] = false /\
+  lex (flat [(va, [32]); (t_cmp CLt, []); (t_minus, []); (one, [])]) = Ok [va; t_arrow; one] /\
+  (* with a separator (what the printers emit: "$a < -1") it is lexable *)
+  lexable [(va, [32]); (t_cmp CLt, [32]); (t_minus, []); (one, [])] = true /\
+  flat [(va, [32]); (t_cmp CLt, [32]); (t_minus, []); (one, [])] = bs "$a < -1" /\
+  (* the sign and the digits may be separated or not *)
+  lexable [(va, []); (t_cmp CLt, [32]); (t_minus, [32]); (one, [])] = true /\
+  (* the other operators do not combine with the sign *)
+  lexable [(va, []); (t_cmp CLe, []); (t_minus, []); (one, [])] = true /\
+  lexable [(va, []); (t_cmp CEq, []); (t_minus, []); (one, [])] = true /\
+  lexable [(va, []); (t_add ASub, []); (t_minus, []); (one, [])] = true /\
+  lex (bs "$a--1") = Ok [va; t_minus; t_minus; one].
+Proof. vm_compute. repeat split. Qed.
+
 Section Dates.
 Local Open Scope Z_scope.
 (* ================================================================== *)
@@ -3120,6 +3400,10 @@ Proof. induction a as [|[t|c] a IH]; cbn [app toks_i]; [reflexivity| |]; rewrite
 (* ---------- the printers' layout of a grammar tree ---------- *)
 Notation sp := (IW 32).
 
+(* the token of a leaf term; a negative integer is the Operator token "-" followed,
+   without a separator, by the Int token of its magnitude *)
+Definition neg_term (t : gterm) : bool := match t with GInt z => (z <? 0)%Z | _ => false end.
+Definition sign_items (t : gterm) : list item := if neg_term t then [IT t_minus] else [].
 Definition term_tok (t : gterm) : token :=
   match t with
   | GParam n => Tok KParameter (123 :: n ++ [125])
@@ -3127,7 +3411,7 @@ Definition term_tok (t : gterm) : token :=
   | GBytes h => Tok KHex (lit_hex ++ h)
   | GStr s => Tok KString s
   | GDate s => Tok KDateTime s
-  | GInt z => Tok KInt (dec_of_Z z)
+  | GInt z => int_tok z
   | GBool b => Tok KBool (if b then L_true else L_false)
   | GSet _ _ => t_lbrack
   end.
@@ -3135,7 +3419,7 @@ Definition term_tok (t : gterm) : token :=
 Fixpoint lay_term (t : gterm) : list item :=
   match t with
   | GSet x xs => IT t_lbrack :: lay_term x ++ lay_commas xs ++ [IT t_rbrack]
-  | _ => [IT (term_tok t)]
+  | _ => sign_items t ++ [IT (term_tok t)]
   end
 with lay_commas (xs : gterms) : list item :=
   match xs with
@@ -3148,6 +3432,8 @@ Lemma up_lay_term_all :
   (forall xs k, up_commas xs k = toks_i (lay_commas xs) ++ k).
 Proof.
   apply gterm_mutind; try (intros; reflexivity).
+  - (* GInt *) intros z k. cbn [up_term lay_term term_tok]. unfold sign_items, neg_term.
+    destruct (z <? 0)%Z; reflexivity.
   - intros x IHx xs IHxs k. cbn [up_term lay_term toks_i]. rewrite IHx, IHxs, !toks_i_app.
     cbn [toks_i app]. cbn [toks_i app]. repeat rewrite <- app_assoc. cbn [app]. reflexivity.
   - intros y IHy ys IHys k. cbn [up_commas lay_commas toks_i]. rewrite IHy, IHys, toks_i_app.
@@ -3251,7 +3537,7 @@ Definition var_ok (v : bytes) : bool := negb (is_nil v) && forallb is_word v.
 (* the elements a printed set may have: no strings (printed as #index), no variables *)
 Definition printable_atom (t : gterm) : bool :=
   match t with
-  | GInt z => ((0 <=? z) && (z <? 9223372036854775808))%Z
+  | GInt z => ((-9223372036854775808 <=? z) && (z <? 9223372036854775808))%Z   (* any int64 *)
   | GDate s => date_ok s
   | GBytes h => hex_ok h
   | GBool _ => true
@@ -3259,7 +3545,15 @@ Definition printable_atom (t : gterm) : bool :=
   end.
 Fixpoint gterms_list (xs : gterms) : list gterm :=
   match xs with GNil => [] | GCons y ys => y :: gterms_list ys end.
-Definition elem_str (t : gterm) : bytes := src (term_tok t).
+Definition elem_str (t : gterm) : bytes := (if neg_term t then L_minus else []) ++ src (term_tok t).
+(* the text of a leaf's layout *)
+Lemma leaf_lay t :
+  match t with GSet _ _ => False | _ => True end -> flat_i (lay_term t) = elem_str t.
+Proof.
+  destruct t as [n|n|h|s|s|z|b|x xs]; intros H; try contradiction;
+    unfold elem_str; cbn [lay_term]; unfold sign_items, neg_term; try destruct (z <? 0)%Z;
+    cbn [app flat_i]; rewrite ?app_nil_r; reflexivity.
+Qed.
 Definition printable_term (t : gterm) : bool :=
   match t with
   | GStr s => str_ok s
@@ -3297,7 +3591,10 @@ Proof.
     exists (ADate (Z.to_N (d mod two64))). cbn [term_to_biscuit]. rewrite E.
     assert (Hs : fmt_rfc3339 (to_int64 (Z.to_N (d mod two64))) = s) by (rewrite to_int64_small by lia; exact H2).
     split; [reflexivity|]. split; [exact Hs|]. split; [reflexivity|exact Hs].
-  - (* int *) exists (AInt z). repeat split.
+  - (* int *) exists (AInt z).
+    assert (Hs : dec_of_Z z = elem_str (GInt z)).
+    { rewrite dec_of_Z_mag. unfold elem_str, neg_term. cbn [term_tok]. destruct (z <? 0)%Z; reflexivity. }
+    repeat split; exact Hs.
   - (* bool *) exists (ABool b). destruct b; repeat split.
 Qed.
 
@@ -3324,8 +3621,8 @@ Proof.
   - cbn. rewrite app_nil_r. reflexivity.
   - cbn [gterms_list forallb] in H. apply andb_true_iff in H as [Hy Hys].
     cbn [gterms_list List.map lay_commas flat_i]. rewrite join_cons2, (IH Hys).
-    assert (Hl : lay_term y = [IT (term_tok y)]) by (destruct y; try reflexivity; discriminate).
-    rewrite flat_i_app, Hl. cbn [flat_i]. unfold elem_str. rewrite app_nil_r. reflexivity.
+    assert (Hl : flat_i (lay_term y) = elem_str y) by (apply leaf_lay; destruct y; try exact I; discriminate).
+    rewrite flat_i_app, Hl. reflexivity.
 Qed.
 
 Lemma term_print t :
@@ -3335,14 +3632,14 @@ Proof.
   destruct t; cbn [printable_term]; intros H; try discriminate.
   - exists (TA (AVar name)). split; [reflexivity|]. cbn. rewrite app_nil_r. reflexivity.
   - destruct (atom_print (GBytes hex) H) as (a & Ha & _ & _ & Hp). exists (TA a). split; [exact Ha|].
-    rewrite Hp. cbn. unfold elem_str. rewrite app_nil_r. reflexivity.
+    rewrite Hp. symmetry. apply leaf_lay. exact I.
   - exists (TA (AStr s)). split; [reflexivity|]. cbn. rewrite app_nil_r. reflexivity.
   - destruct (atom_print (GDate s) H) as (a & Ha & _ & _ & Hp). exists (TA a). split; [exact Ha|].
-    rewrite Hp. cbn. unfold elem_str. rewrite app_nil_r. reflexivity.
+    rewrite Hp. symmetry. apply leaf_lay. exact I.
   - destruct (atom_print (GInt z) H) as (a & Ha & _ & _ & Hp). exists (TA a). split; [exact Ha|].
-    rewrite Hp. cbn. unfold elem_str. rewrite app_nil_r. reflexivity.
+    rewrite Hp. symmetry. apply leaf_lay. exact I.
   - destruct (atom_print (GBool b) H) as (a & Ha & _ & _ & Hp). exists (TA a). split; [exact Ha|].
-    rewrite Hp. cbn. unfold elem_str. rewrite app_nil_r. reflexivity.
+    rewrite Hp. symmetry. apply leaf_lay. exact I.
   - (* set *) apply andb_true_iff in H as [Hel Hsorted]. apply list_eqb_eq in Hsorted.
     cbn [forallb] in Hel. apply andb_true_iff in Hel as [Hx Hxs].
     destruct (atom_print t Hx) as (a & Ha & Hs & He & _).
@@ -3352,8 +3649,8 @@ Proof.
     cbn [print_term term_string List.map]. rewrite Hs, Hm.
     cbn [List.map] in Hsorted. rewrite Hsorted.
     rewrite (join_commas xs Hxs).
-    assert (Hlt : lay_term t = [IT (term_tok t)]) by (destruct t; try reflexivity; discriminate).
-    cbn [lay_term flat_i]. rewrite !flat_i_app, Hlt. cbn [flat_i]. unfold elem_str.
+    assert (Hlt : flat_i (lay_term t) = elem_str t) by (apply leaf_lay; destruct t; try exact I; discriminate).
+    cbn [lay_term flat_i]. rewrite !flat_i_app, Hlt. cbn [flat_i].
     rewrite !app_nil_r. cbn. rewrite <- !app_assoc. reflexivity.
 Qed.
 
@@ -4075,14 +4372,26 @@ Example C15_domain_is_tight :
   same_block (reparse (fact_block (TSet [AInt 1; AInt 2]))) (fact_block (TSet [AInt 1; AInt 2])) = true /\
   (* a string starting with hex: is read back as bytes *)
   reparse (fact_block (TA (AStr (bs "hex:41")))) = Ok (fact_block (TA (ABytes [65]))) /\
-  (* a quote inside a string, a negative integer, a set of strings (printed by index), a date after 9999 *)
+  (* a quote inside a string, a set of strings (printed by index), a date after 9999 *)
   reparse (fact_block (TA (AStr [97; 34; 98]))) = Err EParse /\
-  reparse (fact_block (TA (AInt (-5)))) = Err EParse /\
   reparse (fact_block (TSet [AStr (bs "x")])) = Err EParse /\
   reparse (fact_block (TA (ADate 253402300800))) = Err EParse /\
   (* a set whose elements are not in printed order comes back reordered *)
   reparse (fact_block (TSet [AInt 2; AInt 1])) = Ok (fact_block (TSet [AInt 1; AInt 2])) /\
   reparse (fact_block (TSet [AInt 10; AInt 9])) = Ok (fact_block (TSet [AInt 10; AInt 9])).
+Proof. vm_compute. repeat split. Qed.
+
+(* negative integers are NOT an exclusion (tag @("-":Operator? Int)): the printed "-5" lexes as
+   the Operator "-" and the Int "5" and is read back as the integer, down to MinInt64 *)
+Example C15_negative_int_roundtrips :
+  same_block (reparse (fact_block (TA (AInt (-5))))) (fact_block (TA (AInt (-5)))) = true /\
+  reparse (fact_block (TA (AInt (-5)))) = Ok (fact_block (TA (AInt (-5)))) /\
+  reparse (fact_block (TA (AInt (-9223372036854775808)))) = Ok (fact_block (TA (AInt (-9223372036854775808)))) /\
+  (* in a set the elements are printed in string order: "-2" before "1" *)
+  reparse (fact_block (TSet [AInt (-2); AInt 1])) = Ok (fact_block (TSet [AInt (-2); AInt 1])) /\
+  reparse (fact_block (TSet [AInt 1; AInt (-2)])) = Ok (fact_block (TSet [AInt (-2); AInt 1])) /\
+  lex (reassemble (print_block (fun _ => 1024) (fact_block (TA (AInt (-5)))))) =
+    Ok [Tok KIdent (bs "a"); t_lparen; t_minus; Tok KInt (bs "5"); t_rparen; t_semi].
 Proof. vm_compute. repeat split. Qed.
 
 (* the string "!" is NOT an exclusion (tag @("!":Punct)?): as a whole expression, as an operand
@@ -4244,9 +4553,12 @@ Qed.
 
 Lemma head_term t : ls_term t = true -> head_nonws (lay_term t) = true.
 Proof.
-  destruct t; cbn [ls_term lay_term head_nonws]; intros H; try (rewrite (tok_safe_first _ H); reflexivity).
-  reflexivity.
+  destruct t as [n|n|h|s|s|z|b|x xs]; cbn [ls_term lay_term]; unfold sign_items, neg_term;
+    try destruct (z <? 0)%Z; cbn [app head_nonws]; intros H;
+    try (rewrite (tok_safe_first _ H); reflexivity); reflexivity.
 Qed.
+
+Lemma ok_minus nx : item_ok (IT t_minus) nx = true. Proof. reflexivity. Qed.
 
 Lemma next_commas xs nx : safe nx = true -> safe (next_byte (lay_commas xs) nx) = true.
 Proof. intros H. destruct xs; [exact H|reflexivity]. Qed.
@@ -4255,7 +4567,12 @@ Lemma term_lex_all :
   (forall t, ls_term t = true -> forall nx, safe nx = true -> lex_loc (lay_term t) nx = true) /\
   (forall xs, ls_terms xs = true -> forall nx, safe nx = true -> lex_loc (lay_commas xs) nx = true).
 Proof.
-  apply gterm_mutind; try (intros; cbn [lay_term lex_loc next_byte]; rewrite tok_safe_ok by assumption; reflexivity).
+  apply gterm_mutind;
+    try (intros; cbn [lay_term]; unfold sign_items, neg_term; cbn [app lex_loc next_byte];
+         rewrite tok_safe_ok by assumption; reflexivity).
+  - (* GInt: "-" is lexable whatever follows, the digits as before *)
+    intros z H nx Hnx. cbn [ls_term term_tok] in H. cbn [lay_term term_tok]. unfold sign_items, neg_term.
+    destruct (z <? 0)%Z; cbn [app lex_loc next_byte]; rewrite ?ok_minus, tok_safe_ok by assumption; reflexivity.
   - intros x IHx xs IHxs H nx Hnx. cbn [ls_term] in H. apply andb_true_iff in H as [Hx Hxs].
     cbn [lay_term lex_loc]. rewrite ok_lbrack. cbn [andb].
     rewrite lex_loc_app, lex_loc_app. cbn [lex_loc next_byte]. rewrite ok_rbrack.
@@ -4542,6 +4859,25 @@ Qed.
 Example C15_roundtrip_structural_nonvacuous :
   printable_block ex_block = true /\ is_ok (block_to_biscuit [] ex_block) = true.
 Proof. vm_compute. split; reflexivity. Qed.
+
+(* non-vacuity with negative integers: facts, a set, rule and check expressions; the text the
+   printers emit ("-" immediately followed by the digits, binary operators between spaces) *)
+Definition ex_neg_block_text : string :=
+  "f(-1, [-3, 2], -9223372036854775808);g($a) <- h($a, -5), $a - -1 == 0, $a < -2 || !-3 == $a;check if k($a), -4 * -2 <= $a + -6;".
+Definition ex_neg_block : Block :=
+  match lex (bs ex_neg_block_text) with
+  | Ok ts => match run parse_block_g ts with Ok b => b | _ => MkBlock [] [] end
+  | _ => MkBlock [] []
+  end.
+Example C15_roundtrip_negative_nonvacuous :
+  printable_block ex_neg_block = true /\ List.length (bl_body ex_neg_block) = 3%nat /\
+  flat_i (lay_block ex_neg_block) = bs ex_neg_block_text /\
+  exists b, block_to_biscuit [] ex_neg_block = Ok b /\ reparse b = Ok b /\
+            reassemble (print_block (fun _ => 1024) b) = flat_i (lay_block ex_neg_block).
+Proof.
+  split; [vm_compute; reflexivity|]. split; [vm_compute; reflexivity|]. split; [vm_compute; reflexivity|].
+  eexists. split; [vm_compute; reflexivity|]. split; vm_compute; reflexivity.
+Qed.
 
 (* ================================================================== *)
 (* every parsed block has a grammar tree in the printers' order         *)
@@ -4922,3 +5258,12 @@ Print Assumptions C15_roundtrip_from_grammar.
 Print Assumptions bang_string_parses.
 Print Assumptions bang_still_negates.
 Print Assumptions C15_bang_string_roundtrips.
+Print Assumptions neg_int_facts.
+Print Assumptions neg_int_expressions.
+Print Assumptions C15_negative_int_roundtrips.
+Print Assumptions C15_roundtrip_negative_nonvacuous.
+Print Assumptions int_magnitude_decimal.
+Print Assumptions parse_int_decimal.
+Print Assumptions parse_neg_int_decimal.
+Print Assumptions digit_head_no_literal.
+Print Assumptions decimal_int_examples.
